@@ -347,7 +347,9 @@ impl Request {
                     }
                 }
 
-                request.headers.push(header);
+                if !is_first_iteration {
+                    request.headers.push(header);
+                }
                 iteration_number += 1;
                 continue;
             }
